@@ -29,6 +29,7 @@ var sourceOnly = []string{"GR4J", "Simhyd", "RatingCurvePartition", "Sacramento"
 	"Storage", "StorageRouting", "StorageTrapAll", "StorageParticulateTrapping", "DynamicSednetGully", "DynamicSednetGullyAlt"}
 
 type gNode struct {
+	own    int // own state-vector width (the dataset row may be wider: zero padded)
 	col    []float64
 	state  []float64
 	inputs [][]float64 // stored inputs [input][t] (nil if the model has no stored inputs)
@@ -64,6 +65,7 @@ type owCase struct {
 	in, out, paramFile, stateFile, tsFile, finalFile string
 	preexisting                                      bool
 	relatedNames                                     bool
+	mixedWidths                                      bool
 }
 
 func contains(l []string, s string) bool {
@@ -111,6 +113,7 @@ func drawOwCase(w *simrt.Tape) *owCase {
 		}
 		m.hasInputs = !m.destOK || w.Bool(70)
 		class := -1
+		mixedWidths := false
 		first := true
 		for g := 0; g < c.G; g++ {
 			n := w.Choose(5) // 0..4 nodes: empty batches occur
@@ -129,7 +132,8 @@ func drawOwCase(w *simrt.Tape) *owCase {
 				col := domains.GenParams(w, name, m.maxDim, force)
 				if class < 0 {
 					class = domains.StateWidthClass(name, col)
-				} else {
+					mixedWidths = w.Bool(40)
+				} else if !mixedWidths {
 					domains.ForceStateWidthClass(name, col, class)
 				}
 				first = false
@@ -150,9 +154,21 @@ func drawOwCase(w *simrt.Tape) *owCase {
 			m.batches = append(m.batches, int32(m.total))
 		}
 		if m.total > 0 {
+			// the states dataset is rectangular: its width is the widest node's, narrower rows are
+			// zero padded (the kernels know their own lengths)
 			for _, g := range m.gens {
 				for _, nd := range g {
-					m.width = len(nd.state)
+					if len(nd.state) > m.width {
+						m.width = len(nd.state)
+					}
+				}
+			}
+			for _, g := range m.gens {
+				for _, nd := range g {
+					nd.own = len(nd.state)
+					if nd.own < m.width {
+						c.mixedWidths = true
+					}
 				}
 			}
 		}
@@ -310,6 +326,7 @@ func (c *owCase) buildFiles() {
 		sv := make([]float64, 0, m.total*m.width+1)
 		for _, nd := range nodes {
 			sv = append(sv, nd.state...)
+			sv = append(sv, make([]float64, m.width-len(nd.state))...)
 		}
 		sv = append(sv, 0)
 		hdf5.PutRaw(c.stateFile, base+"/states", []int{m.total, m.width}, sv)
@@ -527,6 +544,7 @@ func engineOwSim(rc *RunCtx) *Outcome {
 		sv := make([]float64, 0, m.total*m.width)
 		for _, nd := range nodes {
 			sv = append(sv, nd.fin...)
+			sv = append(sv, make([]float64, m.width-len(nd.fin))...)
 		}
 		if e := compareDataset(c.finalFile, base+"/states", []int{m.total, m.width}, sv); e != nil {
 			o.fail("states-differ", "states/"+m.name, "%v (model batches %v)", e, m.batches)
@@ -601,6 +619,9 @@ func engineOwSim(rc *RunCtx) *Outcome {
 	}
 	if c.relatedNames {
 		o.probe("model_names_containing_one_another")
+	}
+	if c.mixedWidths {
+		o.probe("nodes_with_different_state_widths(zero_padded_rows)")
 	}
 	return o
 }
